@@ -41,6 +41,8 @@ func init() {
 			{ID: "C18-R20", Title: "the snapshot comes first", Floor: 2, Run: theSnapshotComesFirst},
 			{ID: "C18-R21", Title: "importers remember only successes", Floor: 2, Run: importersRememberOnlySuccesses},
 			{ID: "C18-R22", Title: "a rollback only takes away", Floor: 2, Run: rollbackOnlyTakesAway},
+			{ID: "C18-R23", Title: "a host Call leaves the resume point alone (shared with C07-R32)", Floor: 1, Run: aHostCallLeavesTheResumePointAlone},
+			{ID: "C18-R24", Title: "symbols are written by the symbol table only", Floor: 1, Run: symbolsAreWrittenByTheSymbolTableOnly},
 		},
 	})
 }
